@@ -20,7 +20,11 @@ CONSTANTS MaxIds,      \* bound on the number of entity ids (pool size)
           NewSets,     \* component sets entities may be created with
           DeltaSets,   \* component sets that may be added / removed at once
           FilterCat,   \* catalogue of filter templates [with, without, excl, ftc, qtc]
-          RegCat       \* indices into FilterCat that may be registered
+          RegCat,      \* indices into FilterCat that may be registered
+          ValMode,     \* "ord": values identify entity and component; "const": component only (fewer states)
+          EmitPct,     \* percentage of the transitions whose history is emitted for replay (100 = all)
+          EmitSeed,    \* selects which ones (deterministic checksum of the history)
+          EmitMode     \* "all": every transition (BFS); "last": only histories of full length (simulation)
 
 VARIABLES st, gw, ords, hist
 
@@ -33,9 +37,10 @@ Ord(h) == IF h = Zero THEN 0 ELSE CHOOSE i \in DOMAIN ords : ords[i] = h
 AliveOrds == {i \in DOMAIN ords : ords[i] \in Alive(gw)}
 TargetChoices == Alive(gw) \cup {Zero}
 
-InitVal(o, C)  == [c \in C |-> 10 * o + CompIdx(c)]
-SetVal(o, C)   == [c \in C |-> 10 * o + CompIdx(c) + 5]
-BatchVal(o, C) == [c \in C |-> 10 * o + CompIdx(c) + 3]
+VBase(o) == IF ValMode = "ord" THEN 10 * o ELSE 0
+InitVal(o, C)  == [c \in C |-> VBase(o) + CompIdx(c)]
+SetVal(o, C)   == [c \in C |-> VBase(o) + CompIdx(c) + 5]
+BatchVal(o, C) == [c \in C |-> VBase(o) + CompIdx(c) + 3]
 
 OrdTg(tg) == [c \in DOMAIN tg |-> Ord(tg[c])]
 CSeq(S) == SortComps(S)
@@ -247,7 +252,17 @@ Spec == Init /\ [][Next]_vars
 (***************************************************************************)
 (* Emission of one operation sequence per transition.                      *)
 (***************************************************************************)
-Emit == PrintT("SEQ " \o ToJson(hist'))
+OpCode(op) == CASE op = "New" -> 1 [] op = "Add" -> 2 [] op = "Remove" -> 3 [] op = "Kill" -> 5 [] op = "Set" -> 7
+                 [] op = "SetRel" -> 11 [] op = "Shrink" -> 13 [] op = "Copy" -> 17 [] op = "Exchange" -> 19
+                 [] op = "RegF" -> 23 [] op = "UnregF" -> 29 [] op = "Reset" -> 31 [] OTHER -> 37
+RECURSIVE Chk(_, _)
+Chk(h, i) == IF i > Len(h) THEN 0
+             ELSE (i * (OpCode(h[i].op) + 41 * h[i].e + 43 * Len(h[i].add) + 47 * Len(h[i].rem) + 53 * h[i].f
+                        + 59 * Cardinality(DOMAIN h[i].tg)) + 3 * Chk(h, i + 1)) % 9973
+Emit == IF EmitMode = "last"
+        THEN (IF Len(hist') = MaxHist THEN PrintT("SEQ " \o ToJson(hist')) ELSE TRUE)
+        ELSE IF EmitPct >= 100 \/ (Chk(hist', 1) + EmitSeed * 7919) % 100 < EmitPct
+             THEN PrintT("SEQ " \o ToJson(hist')) ELSE TRUE
 
 Bounded == Len(st.tabs) <= MaxTabs
 
